@@ -8,14 +8,22 @@
    reports (levels, counts, flags, prefixes, data-block sizes, stored keys of every node), and every data-block index of
    a real image must be in the canonical form the writer model produces (re-encoding what was decoded gives the bytes
    that are there).
-   NOT proved (open goal, kept visible): `reopen_identity : abs (open (close s)) = abs s` for the whole store model,
-   `trim_preserves`, `rdonly_no_effect`.  Those are decided per history on the implementation: dump before close =
+   Records, nodes and whole databases (KV/Records.v, Records_proofs.v): a record written the way _kvblk_addkv writes it is
+   read back by the key / value readers (C03_record_roundtrip); a node block + data-block index + one record per used slot
+   reads back as the node's records in slot order (C03_node_contents_roundtrip); an image that holds the encoding of ANY
+   chain of nodes linked through their level-0 links reads back as exactly the records of those nodes
+   (C03_image_reads_back_partial) - the codec half of `reopen_identity`.  The model reader of these theorems is run on every
+   real image next to the implementation's own readers (_kvblk_key_peek / _kvblk_value_peek): stored key, value length and
+   value bytes of every slot of every node must agree.
+   NOT proved (open goal, kept visible): that iwkv_close leaves such an image behind for the store's in-memory state
+   (`reopen_identity : abs (open (close s)) = abs s` for the whole store model), `trim_preserves`, `rdonly_no_effect`.
+   Those are decided per history on the implementation: dump before close =
    dump after reopen for {WAL on/off} x {read-only, read-write} x {trim, no-trim}, metadata, database ids/flags, the
    read-only sessions refuse every mutating call, truncate yields an empty store (python oracle in checks/kvcommon.py),
    and the reopened image is read by the extracted auditor (C06). *)
-Require Import List ZArith Lia. Import ListNotations.
-Require Import IW.Lib.Vnum IW.KV.Audit IW.KV.Inst IW.KV.Image_proofs IW.KV.Codec IW.KV.Codec_proofs IW.Gen.Facts.
-Local Open Scope Z_scope.
+Require Import List ZArith Bool Lia. Import ListNotations.
+Require Import IW.Lib.Vnum IW.KV.Audit IW.KV.Inst IW.KV.Image_proofs IW.KV.Codec IW.KV.Codec_proofs IW.KV.Records IW.KV.Records_proofs IW.Gen.Facts.
+Local Open Scope Z_scope. Local Open Scope bool_scope.
 
 Theorem C03_le_roundtrip_partial : forall n v, 0 <= v < 256 ^ Z.of_nat n -> le_decode (le_encode n v) = v.
 Proof. exact le_roundtrip. Qed.
@@ -50,6 +58,59 @@ Theorem C03_data_block_index_roundtrip :
                                 k_idxend := KVBLK_HDRSZ + Z.of_nat (length (write_pidx p)) |}.
 Proof. exact kvblk_head_roundtrip. Qed.
 Print Assumptions C03_data_block_index_roundtrip.
+
+(* one record: what _kvblk_addkv writes at a slot (key length as a 32-bit variable-length number, stored key, value) is what
+   the key / value readers return, for every key of 1..70000 bytes and every value *)
+Theorem C03_record_roundtrip :
+  forall (rd : Z -> Z) (blk szpow off len : Z) (kv : list Z * list Z),
+    1 <= Z.of_nat (length (fst kv)) <= 70000 -> len = Z.of_nat (length (write_rec (fst kv) (snd kv))) ->
+    holds rd (addr_of blk + 2 ^ szpow - off) (write_rec (fst kv) (snd kv)) ->
+    slot_rec rd blk szpow off len = Some kv.
+Proof. intros rd blk szpow off len kv H1 H2 H3. apply record_roundtrip. unfold rec_at. auto. Qed.
+Print Assumptions C03_record_roundtrip.
+
+(* one node: node block + data-block header and index + one record per used slot -> the node's records in slot order *)
+Theorem C03_node_contents_roundtrip :
+  forall (rd : Z -> Z) (n : dnode), node_on_disk rd n -> node_recs rd (read_sblk rd (s_blk (dn_s n))) = Some (dn_recs n).
+Proof. exact node_roundtrip. Qed.
+Print Assumptions C03_node_contents_roundtrip.
+
+(* a whole database: if the image holds the encoding of a chain of nodes linked through their level-0 links (any number of
+   nodes, any addresses, any record contents), the reader that starts at the first node returns exactly the records of
+   those nodes, node by node - the codec half of reopen_identity (`_partial`: that close leaves such an image behind is
+   checked on the implementation, not proved) *)
+Theorem C03_image_reads_back_partial :
+  forall (rd : Z -> Z) (ns : list dnode) (start : Z) (fuel : nat),
+    chain_on_disk rd ns start -> (length ns < fuel)%nat ->
+    chain_recs rd fuel start = Some (map dn_recs ns) /\
+    option_map (@concat _) (chain_recs rd fuel start) = Some (concat (map dn_recs ns)).
+Proof. intros rd ns start fuel H1 H2. split; [exact (chain_roundtrip rd ns start fuel H1 H2)|exact (chain_contents_roundtrip rd ns start fuel H1 H2)]. Qed.
+Print Assumptions C03_image_reads_back_partial.
+
+(* Non-vacuity of the three statements: an image made of placed byte strings holds a chain of two nodes (two records and
+   one record); the hypotheses are met and the reader returns the three records *)
+Fixpoint img (ps : list (Z * list Z)) (o : Z) : Z :=
+  match ps with
+  | [] => 0
+  | (a, bs) :: r => if (a <=? o) && (o <? a + Z.of_nat (length bs)) then nth (Z.to_nat (o - a)) bs 0 else img r o
+  end.
+Definition exn1 : dnode :=
+  {| dn_s := {| s_blk := 40; s_flags := 1; s_lvl := 0; s_lkl := 2; s_pnum := 2; s_p0 := 0; s_kblk := 100;
+                s_pi := [0; 1] ++ repeat 0 30; s_n := [56] ++ repeat 0 23; s_bpos := 1; s_lk := [97; 49] |};
+     dn_szpow := 9; dn_pidx := [(5, 5); (7, 2)] ++ repeat (0, 0) 30; dn_recs := [([97; 49], [118; 49]); ([98], [])] |}.
+Definition exn2 : dnode :=
+  {| dn_s := {| s_blk := 56; s_flags := 1; s_lvl := 0; s_lkl := 1; s_pnum := 1; s_p0 := 40; s_kblk := 120;
+                s_pi := repeat 0 32; s_n := repeat 0 24; s_bpos := 5; s_lk := [99] |};
+     dn_szpow := 9; dn_pidx := [(5, 5)] ++ repeat (0, 0) 31; dn_recs := [([99], [120; 121; 122])] |}.
+Definition ex_img : Z -> Z :=
+  img [(addr_of 40, write_sblk (dn_s exn1)); (addr_of 100, write_kvblk_head 9 (dn_pidx exn1));
+       (addr_of 100 + 512 - 5, write_rec [97; 49] [118; 49]); (addr_of 100 + 512 - 7, write_rec [98] []);
+       (addr_of 56, write_sblk (dn_s exn2)); (addr_of 120, write_kvblk_head 9 (dn_pidx exn2));
+       (addr_of 120 + 512 - 5, write_rec [99] [120; 121; 122])].
+Example C03_chain_on_disk_example : chain_on_disk ex_img [exn1; exn2] 40.
+Proof. apply chain_on_diskb_ok. vm_compute. reflexivity. Qed.
+Example C03_image_example : chain_recs ex_img 5 40 = Some [[([97; 49], [118; 49]); ([98], [])]; [([99], [120; 121; 122])]].
+Proof. vm_compute. reflexivity. Qed.
 
 (* Non-vacuity: a node with two records on level 1, written into an otherwise empty image at block 40, is read back *)
 Definition ex_node : sblk :=
